@@ -212,13 +212,26 @@ def _fresh_singleton_trampoline():
     threading.Condition: give this thread a trampoline built under the patch (and put the old one back)."""
     from reactivex.scheduler.currentthreadscheduler import CurrentThreadSchedulerSingleton
     from reactivex.scheduler.trampoline import Trampoline
+    import threading
+    from reactivex.scheduler.currentthreadscheduler import CurrentThreadScheduler
     loc = CurrentThreadSchedulerSingleton._local
     old = loc.tramp
     loc.tramp = Trampoline()
+    # the per-thread singleton INSTANCES of this thread are dropped too (and put back afterwards): an implementation
+    # that remembers its thread's trampoline on the instance must not be handed an instance made before the swap
+    me, saved = threading.current_thread(), []
+    for class_map in list(getattr(CurrentThreadScheduler, "_global", {}).values()):
+        try:
+            if me in class_map:
+                saved.append((class_map, class_map.pop(me)))
+        except TypeError:
+            pass
     try:
         yield
     finally:
         loc.tramp = old
+        for class_map, inst in saved:
+            class_map[me] = inst
 
 
 def perform_solo(scn: Dict[str, Any], kind: str, trace: bool = False) -> Dict[str, Any]:
